@@ -18,3 +18,10 @@ pub assume_specification[ u8::is_ascii_whitespace ](b: &u8) -> (r: bool)
     ensures r == (*b == 0x20 || *b == 0x09 || *b == 0x0a || *b == 0x0c || *b == 0x0d);
 pub assume_specification[ u8::is_ascii_graphic ](b: &u8) -> (r: bool)
     ensures r == (0x21 <= *b && *b <= 0x7e);
+
+/// `bytes.drain(..cut);`
+#[verifier::external_body]
+fn vec_drain_prefix(v: &mut Vec<u8>, cut: usize)
+    requires cut <= old(v)@.len(),
+    ensures final(v)@ == old(v)@.skip(cut as int),
+{ v.drain(..cut); }
